@@ -13,3 +13,8 @@ if REPO not in sys.path[:1]:
 os.environ.setdefault('TZ', 'UTC')
 
 VERIF_DIR = os.path.dirname(os.path.dirname(os.path.abspath(__file__)))
+
+import warnings
+warnings.filterwarnings('ignore', category=DeprecationWarning)
+warnings.filterwarnings('ignore', category=FutureWarning)
+os.environ.setdefault('PYTHONWARNINGS', 'ignore::DeprecationWarning,ignore::FutureWarning')
